@@ -204,6 +204,8 @@ warnings.simplefilter('ignore')
 from abel.tools.symmetry import get_image_quadrants as get, put_image_quadrants as put
 IM = np.array(%(IM)s, dtype=float)
 ax = %(ax)r; mask = %(mask)r; meth = %(meth)r; clause = %(clause)r
+if clause.startswith('dtype:'):
+    IMd = IM.astype(clause.split(':')[1])     # (the stored values are exactly representable in that dtype)
 def sym(X):
     return put(get(X, symmetry_axis=ax, use_quadrants=mask, symmetrize_method=meth), X.shape, ax)
 def close(a, b): return a.shape == b.shape and np.allclose(a, b, rtol=1e-12, atol=1e-12)
@@ -225,6 +227,8 @@ try:
     elif clause == 'mean':
         expected = np.array(%(expected)s, dtype=float)
         ok = close(sym(IM), expected)
+    elif clause.startswith('dtype:'):
+        ok = np.allclose(np.asarray(sym(IMd), dtype=float), sym(IM), rtol=1e-5, atol=1e-5 * (1 + np.abs(IM).max()))
 except ValueError as e:
     ok = (clause == 'rejects-defined')
     if clause == 'accepts-undefined': ok = False
@@ -385,6 +389,38 @@ def search(ctx, rng, budget):
                         SX = sym(X, ax, mask, meth)
                         if not close(SX, X):
                             hits.append(mkhit('fix', X, ax, mask, meth, 'an already symmetric image is changed'))
+    # dtype independence: an image stored in a narrower dtype (values exactly
+    # representable) is symmetrised to the same values as its float64 copy
+    DTYPES = ['int8', 'uint8', 'int16', 'uint16', 'int32', 'int64', 'float32']
+    with np.errstate(all='ignore'):
+        for it in range(max(2, budget // 12)):
+            n, m = shapes[(7 * it + 3) % len(shapes)]
+            for dt in DTYPES:
+                info = np.iinfo(dt) if not dt.startswith('float') else None
+                if info is not None:
+                    # values near the extremes of the type: sums of 2 or 4 of them leave its range
+                    lo, hi = (info.min // 2, info.max) if info.min < 0 else (info.max // 2, info.max)
+                    IMd = rng.integers(lo, hi, size=(n, m), endpoint=True).astype(dt)
+                else:
+                    IMd = (rng.normal(size=(n, m)) * 10).astype(dt)
+                IMf = IMd.astype(float)
+                for ax in AXES_PROPERTY:
+                    for meth in METHODS:
+                        for mask in [(True,) * 4, MASKS[rng.integers(16)]]:
+                            if spec_undefined(ax, mask):
+                                continue
+                            n_eval += 1
+                            distinct.add(('dtype', dt, axkey(ax), meth))
+                            try:
+                                Sd = np.asarray(sym(IMd, ax, mask, meth), dtype=float)
+                                Sf = sym(IMf, ax, mask, meth)
+                            except ValueError:
+                                continue
+                            if not np.allclose(Sd, Sf, rtol=1e-5, atol=1e-5 * (1 + np.abs(IMf).max())):
+                                hits.append(mkhit('dtype:' + dt, IMf, ax, mask, meth,
+                                                  'the %s image is not symmetrised to the values of its float64 copy '
+                                                  '(max difference %.3g)' % (dt, np.abs(Sd - Sf).max()),
+                                                  key='C06:dtype:%s:%s:axis=%s' % (dt, meth, axkey(ax))))
     return hits, n_eval, len(distinct)
 
 
@@ -411,7 +447,7 @@ def run(ctx):
     ctx.cov.update(evaluations=n_eval + len(cases), distinct_nontrivial=n_distinct,
                    rule='search: random real images over shapes 2..9 x 2..9 (+4 larger), 5 symmetry_axis values of the '
                         'property, both methods, all 16 masks on the first passes then random masks; a case is distinct by '
-                        '(axis, method, mask, row parity, column parity); the rejection and mirror clauses are also observed through abel.Transform (hansenlaw, origin none) on 6 shapes; correspondence cases are counted in evaluations only',
+                        '(axis, method, mask, row parity, column parity); dtype independence (7 narrower dtypes with values near the extremes of the type vs the float64 copy); the rejection and mirror clauses are also observed through abel.Transform (hansenlaw, origin none) on 6 shapes; correspondence cases are counted in evaluations only',
                    samples=[dict(shape=list(c['IM'].shape), symmetry_axis=repr(c['ax']), use_quadrants=list(c['mask']),
                                  method=c['meth'], reorient=c['reorient'], outcome=r[0])
                             for c, r in list(zip(cases, results))[:5]],
